@@ -20,7 +20,6 @@ fn fwd(op: &Op, _ctx: &dyn Context, operands: &mut dyn CoordinateSet) -> usize {
     };
     let Ok(d) = op.params.real("d") else { return 0 };
 
-    let oblique = op.params.boolean("oblique");
     let north_polar = op.params.boolean("north_polar");
     let south_polar = op.params.boolean("south_polar");
 
@@ -67,12 +66,9 @@ fn fwd(op: &Op, _ctx: &dyn Context, operands: &mut dyn CoordinateSet) -> usize {
         let xi = (ancillary::qs(lat.sin(), e) / qp).asin();
         let (sin_xi, cos_xi) = xi.sin_cos();
 
-        let b = if oblique {
-            let factor = 1.0 + sin_xi_0 * sin_xi + (cos_xi_0 * cos_xi * cos_lon);
-            rq * (2.0 / factor).sqrt()
-        } else {
-            1.0
-        };
+        // The general formula covers the equatorial aspect (xi_0 = 0) as well
+        let factor = 1.0 + sin_xi_0 * sin_xi + (cos_xi_0 * cos_xi * cos_lon);
+        let b = rq * (2.0 / factor).sqrt();
 
         let easting = x_0 + (b * d) * (cos_xi * sin_lon);
         let northing = y_0 + (b / d) * (cos_xi_0 * sin_xi - sin_xi_0 * cos_xi * cos_lon);
@@ -99,6 +95,9 @@ fn inv(op: &Op, _ctx: &dyn Context, operands: &mut dyn CoordinateSet) -> usize {
         return 0;
     };
     let Ok(d) = op.params.real("d") else { return 0 };
+    let Ok(qp) = op.params.real("qp") else {
+        return 0;
+    };
     let Ok(authalic) = op.params.fourier_coefficients("authalic") else {
         return 0;
     };
@@ -113,8 +112,6 @@ fn inv(op: &Op, _ctx: &dyn Context, operands: &mut dyn CoordinateSet) -> usize {
 
     let ellps = op.params.ellps(0);
     let a = ellps.semimajor_axis();
-    let es = ellps.eccentricity_squared();
-    let e = es.sqrt();
 
     let (sin_xi_0, cos_xi_0) = xi_0.sin_cos();
 
@@ -128,9 +125,10 @@ fn inv(op: &Op, _ctx: &dyn Context, operands: &mut dyn CoordinateSet) -> usize {
             let (x, y) = operands.xy(i);
             let rho = (x - x_0).hypot(y - y_0);
 
-            // The authalic latitude is a bit convoluted
-            let denom = a * a * (1.0 - ((1.0 - es) / (2.0 * e)) * ((1.0 - e) / (1.0 + e)).ln());
-            let xi = (-sign) * (1.0 - rho * rho / denom);
+            // The authalic latitude: a²·qp is the squared radius of the full disc
+            // (qp is also well defined for a sphere, where the closed form below is 0/0)
+            let denom = a * a * qp;
+            let xi = ((-sign) * (1.0 - rho * rho / denom)).asin();
 
             let lon = lon_0 + (x - x_0).atan2(sign * (y - y_0));
             let lat = ellps.latitude_authalic_to_geographic(xi, &authalic);
@@ -210,7 +208,7 @@ pub fn new(parameters: &RawParameters, _ctx: &dyn Context) -> Result<Op, Error> 
     }
 
     let polar = (t - FRAC_PI_2).abs() < EPS10;
-    let north = polar && (t > 0.0);
+    let north = polar && (lat_0 > 0.0);
     let equatorial = !polar && t < EPS10;
     let oblique = !polar && !equatorial;
     match (polar, equatorial, north) {
@@ -237,10 +235,8 @@ pub fn new(parameters: &RawParameters, _ctx: &dyn Context) -> Result<Op, Error> 
     // Rq in the IOGP text
     let rq = a * (0.5 * qp).sqrt();
     // D in the IOGP text
-    let d = if oblique {
+    let d = if oblique || equatorial {
         a * (cos_phi_0 / (1.0 - es * sin_phi_0 * sin_phi_0).sqrt()) / (rq * xi_0.cos())
-    } else if equatorial {
-        rq.recip()
     } else {
         a
     };
